@@ -103,6 +103,13 @@ CHECKS = {
                      "index macro and through the name lists; every entry's well-formedness conditions are evaluated; for every entry three copies are fetched, one "
                      "is scribbled over, the others and a fresh fetch compared, and all are released in every order in a leak-accounting and an ASan build.",
                 note="Finite catalogues: the enumeration is complete. Macro names are bound to entry names by their alphanumeric skeleton."),
+    "C04": dict(level="model_checking", engine="HIST", ref="4/C04",
+                technique="bounded-exhaustive enumeration of inputs, crystal-file line sequences and allocation histories (all release orders) on the real library under ASan/UBSan and per-call live-block accounting",
+                text="Every exported function over the C03 argument product, hostile user crystals, every crystal-file line sequence up to length 4/6 (plus every byte "
+                     "prefix of Crystals.dat) and every operation history up to depth 3/4 over the 40-op allocating API with every release order of the live handles are "
+                     "executed twice: in an ASan+UBSan build (any report is a violation) and in a build whose malloc/free seam counts blocks allocated inside the call "
+                     "window that survive the release of the result and the error (leaks are attributed to the allocating library frame).",
+                note="Allocation failure is not injected; quick strides each function's product to 150k tuples (thorough: complete). UBSan nonnull-attribute off."),
 }
 NOT_YET = {}
 ALL = ["C%02d" % i for i in range(1, 21)]
